@@ -185,6 +185,7 @@ def sequential_outcomes(scn):
 
 RUNNER_FILES = ("runner_local.py", "call_stack.py", "runner.py")
 STORAGE_FILES = ("storage_base.py", "storage_filesystem.py", "storage_memory.py")
+WIDE_FILES = ("memento.py", "base.py", "reference.py", "context.py", "configuration.py")
 
 # helpers that only compute strings / build thread-local objects: no scheduling points inside
 SKIP_NAMES = ("_get_metadata_path", "_get_function_path", "_get_path", "_escape_key", "_get_path_versioned",
@@ -209,6 +210,8 @@ def granularity(gran):
 
     if gran == "full":
         return files(RUNNER_FILES + STORAGE_FILES), ()
+    if gran == "wide":  # also the function object / reference / context / configuration layers above the runner
+        return files(RUNNER_FILES + STORAGE_FILES + WIDE_FILES), ()
     if gran == "calls":  # line points only inside the function bodies; one point per call into runner / storage code
         return (c09fx.__file__,), files(RUNNER_FILES + STORAGE_FILES)[:-1]
     return files(RUNNER_FILES), files(STORAGE_FILES)[:-1]
@@ -383,7 +386,8 @@ def run(ctx):
                 "fs+cache fitting one entry, fs without cache, memory backend}, scheduling points at every line of the runner/"
                 "storage/cache/call-stack code and every library lock acquisition, up to preemption bound %d (bound 0..%d "
                 "complete). distinct = distinct (returned values, body count, final cache) observations." % (bound, bound))
-    ctx.assumptions += ["a switch can only happen at a line boundary of the traced files or at a lock acquisition "
+    ctx.assumptions += ["granularity 'wide' adds line points in memento.py, base.py, reference.py, context.py, configuration.py (bound 1)",
+                        "a switch can only happen at a line boundary of the traced files or at a lock acquisition "
                         "(CPython switches threads at bytecode boundaries; thorough adds opcode-level points in MemoryCache)",
                         "untraced library modules (argument hashing, codecs) only touch thread-local data"]
     scns = scenarios(ctx.tier)
@@ -408,6 +412,10 @@ def run(ctx):
             trace, _, _, _ = run_once(scn, (), False, "runner")
             per[scn[0]]["choice_points_runner_granularity"] = len(trace)
             tasks.append((scn, (), 2, {"cap": CAP, "gran": "runner"}))
+    # bound 1 with line points also in the layers above the runner (version cache, references, contexts, configuration)
+    for scn in scns:
+        if len(scn[3]) == 2 and (thorough or scn[0] in ("mem|cold|auto-unrelated", "mem|cold|nested-shared")):
+            tasks.append((scn, (), 1, {"cap": CAP, "gran": "wide"}))
     # the hand-over of the per-call mutex between three callers: bound 2 (thorough 3) with one point per call into the
     # runner / storage code and line points inside the function body
     for scn in scns:
